@@ -300,11 +300,28 @@ func Journal(id string, kase any) {
 // run cut short by a deadline is reported as inconclusive rather than as passed.
 func Check(t *testing.T, id string, body func(*rapid.T)) {
 	t.Helper()
+	CheckScaled(t, id, 1, 1, body)
+}
+
+// CheckScaled is Check with the driver's base case count multiplied by num/den
+// (cheap properties run more cases, expensive ones fewer, from one -rapid.checks value).
+func CheckScaled(t *testing.T, id string, num, den int64, body func(*rapid.T)) {
+	t.Helper()
 	planned := int64(100)
-	if f := flag.Lookup("rapid.checks"); f != nil {
+	f := flag.Lookup("rapid.checks")
+	if f != nil {
 		if v, err := strconv.ParseInt(f.Value.String(), 10, 64); err == nil {
 			planned = v
 		}
+	}
+	if f != nil && (num != 1 || den != 1) {
+		base := planned
+		planned = base * num / den
+		if planned < 1 {
+			planned = 1
+		}
+		f.Value.Set(strconv.FormatInt(planned, 10))
+		defer f.Value.Set(strconv.FormatInt(base, 10))
 	}
 	var done int64
 	rapid.Check(t, func(rt *rapid.T) {
@@ -322,8 +339,7 @@ func Check(t *testing.T, id string, body func(*rapid.T)) {
 	mu.Unlock()
 }
 
-// Checks returns the -rapid.checks value scaled by num/den (at least 1): tests whose
-// cases are expensive run a stated fraction of the driver's base count.
+// Hash returns a 64-bit fingerprint of its arguments.
 func Hash(parts ...any) uint64 {
 	h := fnv.New64a()
 	var b [8]byte
